@@ -1,0 +1,20 @@
+//go:build verif
+
+package hash
+
+// Machine-checked contracts for /verif (read as text by the VC generator; no code).
+//
+// be32at(h, off): the big-endian 32-bit number stored in bytes off..off+3 of an event ID.
+//@ spec be32at(h Event, off int) int = ((h[off]*256 + h[off+1])*256 + h[off+2])*256 + h[off+3]
+//@
+//@ func (Event).Epoch
+//@   ensures  result == be32at(h, 0)
+//@ func (Event).Lamport
+//@   ensures  result == be32at(h, 4)
+//@
+//@ // byte-wise order of event IDs sorts by epoch, then Lamport time
+//@ spec idless(a Event, b Event) bool = exists(k, 0, 32, forall(j, 0, k, a[j] == b[j]) && a[k] < b[k])
+//@ spec bytesOK(a Event) bool = forall(j, 0, 32, 0 <= a[j] && a[j] <= 255)
+//@ lemma id_order(a Event, b Event)
+//@   requires bytesOK(a) && bytesOK(b) && idless(a, b)
+//@   ensures  be32at(a, 0) < be32at(b, 0) || (be32at(a, 0) == be32at(b, 0) && be32at(a, 4) <= be32at(b, 4))
